@@ -445,3 +445,67 @@ def compatible(paths, mapping):
 
 def feasible(paths, mapping):
     return [p for p in paths if all(eval_atom(s, mapping) == t for s, t, _ in p.conds)]
+
+
+def inline_call(callee_node, call_node, caller_env=None, skip_self=True, arg_srcs=None):
+    """Decision table of a callee specialised to one call site (inlining bound 1).  Parameters are replaced by the argument expressions of `call_node` (positional,
+    keyword, defaults); conditions that fold to a constant under that substitution select / discard paths.  Returns a list of
+    (residual_conds [(src, truth)], calls [(callee src, [arg src], {kw: src})], end, value) for the paths that remain feasible."""
+    from .astutil import const_value
+
+    a = callee_node.args
+    params = [x.arg for x in a.args]
+    if skip_self and params and params[0] in ("self", "cls"):
+        params = params[1:]
+        defaults_for = [x.arg for x in a.args][1:]
+    else:
+        defaults_for = [x.arg for x in a.args]
+    mapping = {}
+    for name, d in zip(defaults_for[len(defaults_for) - len(a.defaults):], a.defaults):
+        mapping[name] = norm(d)
+    if arg_srcs is not None:
+        # positional arguments as they stood at the time of the call (Path.calls records them substituted)
+        for name, src in zip(params, arg_srcs):
+            mapping[name] = src
+    else:
+        for name, arg in zip(params, call_node.args):
+            mapping[name] = subst(arg, caller_env or {})
+    for kw in call_node.keywords:
+        if kw.arg is None:
+            raise AnalysisError("decision table: **kwargs at an inlined call site")
+        mapping[kw.arg] = subst(kw.value, caller_env or {})
+    missing = [p for p in params if p not in mapping]
+    if missing:
+        raise AnalysisError("decision table: arguments %s of the inlined call not found" % missing)
+
+    def sub(src):
+        return subst(ast.parse(src, mode="eval").body, mapping)
+
+    out = []
+    for p in extract(callee_node, opaque_loops=True):
+        ok = True
+        residual = []
+        for s, t, _ in p.conds:
+            if s.startswith("<"):
+                residual.append((s, t))
+                continue
+            s2 = sub(s)
+            okf, v = const_value(ast.parse(s2, mode="eval").body)
+            if okf:
+                if bool(v) != t:
+                    ok = False
+                    break
+            else:
+                residual.append((s2, t))
+        if not ok:
+            continue
+        calls = []
+        for fn, args, node in p.calls:
+            kws = {}
+            if isinstance(node, ast.Call):
+                for kw in node.keywords:
+                    if kw.arg is not None:
+                        kws[kw.arg] = sub(subst(kw.value, p.env))
+            calls.append((fn, [sub(x) for x in args], kws))
+        out.append((residual, calls, p.end, sub(p.value) if p.value is not None and p.end in ("return", "raise") and not p.value.startswith("<") else p.value))
+    return out
